@@ -234,3 +234,47 @@ Proof.
 Qed.
 Print Assumptions C02_defrag_open_pass_nonvacuous.
 
+
+(* ---------------------------------------------------------------- the memory type against memoryTypeBits (C02 / C08)
+   C02_type_permitted: AllocateMemory, AllocateMemoryForBuffer/Image, CreateBuffer, CreateImage WITHOUT a custom pool, on every
+   reachable state, with any fault oracle: when the call succeeds, the Allocation's memory object has a memory type that is an
+   index of the device's type table and whose bit is set in the memoryTypeBits of the requirements the call was made for
+   (VamTypeBits.op_type_bits: the caller's for AllocateMemory; what vkGet*MemoryRequirements reports for the resource
+   otherwise - for CreateBuffer/CreateImage the resource the call itself has just created, whose handle is fresh:
+   VamMemStable.reachA_res_inv).  With VamBindCreate.create_bind_valid (C08) the vkBind*Memory of CreateBuffer/CreateImage
+   therefore binds type-compatible memory.
+   C02_type_permitted_pool_refuted: FALSE with a custom pool.  multiAllocateMemory takes the pool's memory type without
+   looking at memoryTypeBits (allocator.go: `if options.Pool != nil { return a.allocateMemoryOfType(...) }`), so CreateBuffer
+   into a pool of memory type 1 for a buffer that admits only memory type 0 succeeds and binds the buffer to type-1 memory.
+   (Upstream VMA behaves the same; it is the caller's duty to pick a compatible pool.) *)
+From Arsenal Require VamAcctThm VamTypeBits.
+Module TypeBits.
+Import VamAcctThm VamTypeBits.
+
+Theorem C02_type_permitted : forall c v o f v' calls slot bits,
+  cfg_acct c -> reachA c v -> op_ok v o -> op_dom o -> step c v o f = (v', ROk, calls) -> op_type_bits v o = Some (slot, bits) ->
+  exists a d, slot_is v' slot a /\ 0 <= a_type a < ntypes c /\ type_bit bits (a_type a) /\
+              find_mem (m_mems (v_m v')) (a_mem a) = Some d /\ dm_type d = a_type a.
+Proof. intros c v o f v' calls slot bits Ha. exact (type_permitted_step c Ha v o f v' calls slot bits). Qed.
+Print Assumptions C02_type_permitted.
+
+Theorem C02_multi_allocate_type_permitted : forall c v size align typeBits reqDed prefDed ded bufimg usage flags0 req pref ctb sub slots v',
+  cfg_ok c -> VamInv c v -> NoDup slots -> dead_slots v slots ->
+  multi_allocate c v size align typeBits reqDed prefDed ded bufimg usage flags0 req pref ctb None sub slots = (v', OK tt) ->
+  exists ty, 0 <= ty < ntypes c /\ type_bit typeBits ty /\
+             forall s, In s slots -> a_type (get_alloc v' s) = ty /\ a_lref (get_alloc v' s) = LDef ty.
+Proof. intros c v size align typeBits reqDed prefDed ded bufimg usage flags0 req pref ctb sub slots v' Hc. exact (multi_allocate_type_permitted c Hc v size align typeBits reqDed prefDed ded bufimg usage flags0 req pref ctb sub slots v'). Qed.
+Print Assumptions C02_multi_allocate_type_permitted.
+
+Theorem C02_type_permitted_pool_refuted :
+  reachA exA_cfg tb_v1 /\ op_ok tb_v1 tb_op /\ op_dom tb_op /\
+  tb_op = OCreateBuf 0 1000 (mkResreq 1000 16 1 false false) 128 0 0 0 0 0 0 (Some 1) /\
+  exists v' calls a d,
+    step exA_cfg tb_v1 tb_op no_fault = (v', ROk, calls) /\ slot_is v' 0 a /\
+    find_mem (m_mems (v_m v')) (a_mem a) = Some d /\ dm_type d = a_type a /\
+    ~ type_bit 1 (a_type a) /\ In (CBind false 1 (a_mem a) 0 0) calls.
+Proof.
+  destruct type_permitted_pool_refuted as (A & B & C0 & D). split; [exact A|]. split; [exact B|]. split; [exact C0|]. split; [reflexivity|exact D].
+Qed.
+Print Assumptions C02_type_permitted_pool_refuted.
+End TypeBits.
